@@ -66,8 +66,17 @@ def main(argv) -> int:
         if watch_defaults:
             omit.drain(ctx)
     except BaseException as e:  # harness failure: never a verdict
-        out['harness_error'] = ''.join(
-            traceback.format_exception(type(e), e, e.__traceback__))[-4000:]
+        handled = False
+        try:
+            if getattr(mod, 'BUILDER_DEFAULTS', False):
+                from . import omit
+                handled = omit.escaped_builder_error(e, ctx)
+                omit.drain(ctx)
+        except BaseException:
+            handled = False
+        if not handled:
+            out['harness_error'] = ''.join(
+                traceback.format_exception(type(e), e, e.__traceback__))[-4000:]
     out.update(ctx.to_dict())
     jsonx.dump_file(out, out_path)
     return 3 if 'harness_error' in out else 0
